@@ -1310,7 +1310,11 @@ def _getElementsByTagName(self, tagname):
 
     # Look in attributes dictionary for document fragments as well
     if self.attributes and list(self.attributes.keys()):
-        for item in list(self.attributes.values()):
+        for key, item in list(self.attributes.items()):
+            # The `self` attribute is the list of child nodes, which
+            # is searched below
+            if key == 'self':
+                continue
             if getattr(item, 'tagName', None) in tagname:
                  output.append(item)
             if hasattr(item, 'getElementsByTagName'):
